@@ -1,6 +1,8 @@
-(* C12 - GAP maintenance polls exactly the own GAP (station-local, one-step part).
-   Theorem statements only; every proof is `exact <lemma of Proofs/FdlProofs.v>`.
-   Planned on top of the same model (DESIGN 4, not yet proved): C12_one_per_visit, C12_sweep_bound, C12_found_becomes_successor, C12_status_reply_truth. *)
+(* C12 - GAP maintenance polls exactly the own GAP and status replies are truthful.
+   Theorem statements only; every proof is `exact <lemma>`.  First the function-level theorems (Proofs/FdlProofs.v,
+   Proofs/FdlStepProofs.v), then - second half of the file - the whole-poll, history and timing theorems of DESIGN 4
+   (Proofs/C12Proofs.v): C12_poll_transmissions, C12_poll_in_gap, C12_one_per_visit, C12_sweep_bound,
+   C12_found_becomes_successor, C12_status_reply_truth, C12_status_reply_in_slot and their companions. *)
 From PB Require Import Common Fdl FdlProofs FdlStepProofs.
 
 (* The next GAP address is always strictly between TS and NS (cyclically) - in particular never the
@@ -53,3 +55,380 @@ Theorem C12_claim_scan_polls_in_gap : forall (A : Type) (f : fdl) (now : Z) (w :
   in_gap (ts f) (r_ns (f_ring f)) a /\ a <> ts f /\ f_gap f' = GapDoPoll a /\ (exists wire, w_tx w' = Some wire).
 Proof. exact do_claim_token_gap_poll. Qed.
 Print Assumptions C12_claim_scan_polls_in_gap.
+
+(* ============================================================================================ *)
+(* Whole-poll, history and timing theorems (Proofs/C12Proofs.v).  `poll ops f now pin apps` is one *)
+(* call of FdlActiveStation::poll_multi on station state f at time now with the PHY snapshot pin  *)
+(* (tx_busy, receive buffer) and the applications apps; all theorems quantify over ALL station    *)
+(* states (reachable or not), all inputs and all applications.                                    *)
+(* ============================================================================================ *)
+From PB Require Import Tables FdlTables Telegram Phy TokenRing Params C12Proofs.
+From PB Require LasOracle.
+
+(* C12_poll_transmissions - every transmission of a poll is exactly one of:
+   (app)   the telegram an application handed over in this poll (last entry of the call log), from UseToken /
+           AwaitDataResponse (time-out);
+   (token) a token from this station: the claim token TS -> TS (after the silence time-out, or the second one
+           of the claim), or the token pass out of PassToken / AwaitStatusResponse (time-out) / CheckTokenPass (retry);
+   (gap)   an FDL status request of GAP maintenance: sent from PassToken{do_gap} or the post-claim scan, to an
+           address strictly inside the GAP, after which the station waits for the reply
+           (AwaitStatusResponse a / ClaimToken::ScanAwaitResponse a);
+   (reply) a status reply to the requester recorded in ListenToken / ActiveIdle.
+   So a status request that is not an application's is always of kind (gap): "gap_request" below is
+   complete as the definition of "the poll transmits a status request as part of GAP maintenance". *)
+Theorem C12_poll_transmissions : forall (A : Type) (ops : app_ops A) (f : fdl) (now : Z) (pin : phy_in) (apps : list A)
+    (f' : fdl) (o : phy_out) (apps' : list A) (calls : list call) (wire : bytes),
+  poll ops f now pin apps = Ok (f', o, apps', calls) -> tx o = Some wire ->
+  (* app *)
+  (exists cs i hp er, calls = cs ++ [CallTransmit i hp (Some (wire, er))] /\
+     (kind_of (f_state f) = KUseToken \/ kind_of (f_state f) = KAwaitDataResponse) /\
+     (kind_of (f_state f') = KUseToken \/ kind_of (f_state f') = KAwaitDataResponse)) \/
+  (calls = [] /\
+   ((* token *)
+    (exists da, wire = encode_token da (ts f) /\
+       ((da = ts f /\
+         ((f_state f' = ClaimToken StepSecondToken /\
+           ((kind_of (f_state f) = KListenToken \/ kind_of (f_state f) = KActiveIdle \/
+             online_entry_kind (kind_of (f_state f)) = true) \/ f_state f = ClaimToken StepFirstToken)) \/
+          (f_state f' = ClaimToken StepScan /\ f_state f = ClaimToken StepSecondToken))) \/
+        ((f_state f' = UseToken now None false \/ exists att, f_state f' = CheckTokenPass att) /\
+         (kind_of (f_state f) = KPassToken \/ kind_of (f_state f) = KAwaitStatusResponse \/
+          kind_of (f_state f) = KCheckTokenPass)))) \/
+    (* gap *)
+    (exists a, wire = encode (TData (status_request_header a (ts f)) []) /\ in_gap (ts f) (r_ns (f_ring f)) a /\
+       ((0 <= ts f < p_hsa (f_p f) /\ (forall c, f_gap f = GapDoPoll c -> 0 <= c < p_hsa (f_p f))) -> 0 <= a < p_hsa (f_p f)) /\
+       f_ring f' = f_ring f /\ f_gap f' = GapDoPoll a /\
+       ((f_state f' = AwaitStatusResponse a /\ exists att, f_state f = PassToken true att) \/
+        (f_state f' = ClaimToken (StepScanAwaitResponse a) /\
+         (f_state f = ClaimToken StepScan \/ exists a0, f_state f = ClaimToken (StepScanAwaitResponse a0))))) \/
+    (* reply *)
+    (exists src st, wire = encode (TData (status_response_header src (ts f) st status_reply_status) []) /\
+       reply_sent f f' src st))).
+Proof. exact poll_transmissions. Qed.
+Print Assumptions C12_poll_transmissions.
+
+(* C12_poll_in_gap (whole poll).  If a poll transmits and ends waiting for a status reply from a - which by
+   C12_poll_transmissions is what every GAP maintenance request looks like, from PassToken's GAP branch and from
+   the post-claim scan alike - then a is strictly between TS and NS (cyclically), hence a <> TS and a <> NS, below
+   HSA whenever TS and the GAP cursor were; the wire is the status request TS -> a, no application was asked, the
+   ring view is unchanged.  For ALL (TS, NS, HSA, cursor): NS = TS, NS = TS-1, NS = HSA-1, TS = HSA-1, TS = 0 included. *)
+Theorem C12_poll_in_gap : forall (A : Type) (ops : app_ops A) (f : fdl) (now : Z) (pin : phy_in) (apps : list A)
+    (f' : fdl) (o : phy_out) (apps' : list A) (calls : list call) (a : Z),
+  poll ops f now pin apps = Ok (f', o, apps', calls) ->
+  tx o <> None /\ (f_state f' = AwaitStatusResponse a \/ f_state f' = ClaimToken (StepScanAwaitResponse a)) ->
+  in_gap (ts f) (r_ns (f_ring f)) a /\ a <> ts f /\ a <> r_ns (f_ring f) /\
+  ((0 <= ts f < p_hsa (f_p f) /\ (forall c, f_gap f = GapDoPoll c -> 0 <= c < p_hsa (f_p f))) -> 0 <= a < p_hsa (f_p f)) /\
+  tx o = Some (encode (TData (status_request_header a (ts f)) [])) /\ calls = [] /\
+  f_ring f' = f_ring f /\ f_gap f' = GapDoPoll a /\
+  ((f_state f' = AwaitStatusResponse a /\ exists att, f_state f = PassToken true att) \/
+   (f_state f' = ClaimToken (StepScanAwaitResponse a) /\
+    (f_state f = ClaimToken StepScan \/ exists a0, f_state f = ClaimToken (StepScanAwaitResponse a0)))).
+Proof. exact poll_gap_request_in_gap. Qed.
+Print Assumptions C12_poll_in_gap.
+
+(* C12_one_per_visit, one-step half.  After the GAP request of a visit (state AwaitStatusResponse) and after the
+   post-claim scan (PassToken{do_gap: No}) the station transmits nothing but the token, to its NS; until then it
+   stays in this phase, asks no application and leaves the GAP state alone; it leaves the phase without the token
+   transmission only by giving the token up (unexpected telegram -> ActiveIdle). *)
+Theorem C12_after_gap_request_only_the_token : forall (A : Type) (ops : app_ops A) (f : fdl) (now : Z) (pin : phy_in)
+    (apps : list A) (f' : fdl) (o : phy_out) (apps' : list A) (calls : list call),
+  poll ops f now pin apps = Ok (f', o, apps', calls) ->
+  (match f_state f with AwaitStatusResponse _ => true | PassToken false _ => true | _ => false end) = true ->
+  calls = [] /\ f_gap f' = f_gap f /\
+  ((tx o = None /\
+    (f_state f' = f_state f \/ f_state f' = PassToken false AttFirst \/ f_state f' = ActiveIdle None None 0)) \/
+   (tx o = Some (encode_token (r_ns (f_ring f)) (ts f)) /\
+    witness (f_ring f) (ts f) (r_ns (f_ring f)) = Ok (f_ring f') /\
+    (f_state f' = UseToken now None false \/ exists att, f_state f' = CheckTokenPass att))).
+Proof. exact after_gap_request_step. Qed.
+Print Assumptions C12_after_gap_request_only_the_token.
+
+(* C12_one_per_visit, history half, with a ghost counter over any sequence of polls (any times, PHY snapshots and
+   applications): c counts the GAP requests of the token-passing kind (poll transmits and ends in
+   AwaitStatusResponse) and is reset when the station is outside the phase {AwaitStatusResponse, PassToken{do_gap: No}}
+   - which by the theorem above it leaves only by transmitting the token or giving it up.  The counter never
+   exceeds 1: at most one GAP request between two token transmissions of a visit.  (The requests of the post-claim
+   scan are not counted: that is the exception of the property text, see C12_claim_scan_back_to_back.) *)
+Theorem C12_one_per_visit : forall (A : Type) (ops : app_ops A) (ins : list (Z * phy_in * list A)) (f : fdl) (c : nat),
+  c = 0%nat \/ (c = 1%nat /\ gap_done (f_state f) = true) ->
+  Forall (fun x => (x <= 1)%nat) (gap_counters ops f c ins).
+Proof. exact one_gap_request_per_visit. Qed.
+Print Assumptions C12_one_per_visit.
+
+(* The GAP step of a token visit: a poll in PassToken{do_gap: Yes} either does nothing (PHY busy / pause not over) or
+   performs exactly gap_visit_step (advance the cursor / count a rotation / restart the sweep), transmits the status
+   request iff the new GAP state is DoPoll a, and passes the token otherwise. *)
+Theorem C12_visit_performs_gap_step : forall (A : Type) (ops : app_ops A) (f : fdl) (now : Z) (pin : phy_in)
+    (apps : list A) (f' : fdl) (o : phy_out) (apps' : list A) (calls : list call) (att : attempt),
+  poll ops f now pin apps = Ok (f', o, apps', calls) -> f_state f = PassToken true att ->
+  (tx o = None /\ f_state f' = f_state f /\ f_gap f' = f_gap f /\ f_ring f' = f_ring f) \/
+  (gap_visit_step f = Ok (f_gap f') /\
+   ((exists a, f_gap f' = GapDoPoll a /\ f_state f' = AwaitStatusResponse a /\
+        tx o = Some (encode (TData (status_request_header a (ts f)) [])) /\ f_ring f' = f_ring f) \/
+    (exists n, f_gap f' = GapWaiting n /\ tx o = Some (encode_token (r_ns (f_ring f)) (ts f)) /\
+        witness (f_ring f) (ts f) (r_ns (f_ring f)) = Ok (f_ring f') /\
+        (f_state f' = UseToken now None false \/ f_state f' = CheckTokenPass att)))).
+Proof. exact pass_token_performs_gap_step. Qed.
+Print Assumptions C12_visit_performs_gap_step.
+
+(* ... and nothing else touches the GAP state: any poll leaves it unchanged except the GAP step above, the claim
+   phase (ClaimToken), a claim after the silence time-out and the reset after an address collision. *)
+Theorem C12_gap_state_frame : forall (A : Type) (ops : app_ops A) (f : fdl) (now : Z) (pin : phy_in) (apps : list A)
+    (f' : fdl) (o : phy_out) (apps' : list A) (calls : list call),
+  poll ops f now pin apps = Ok (f', o, apps', calls) ->
+  f_gap f' = f_gap f \/
+  (exists att, f_state f = PassToken true att /\ gap_visit_step f = Ok (f_gap f')) \/
+  kind_of (f_state f) = KClaimToken \/
+  (f_state f' = ClaimToken StepSecondToken /\ f_gap f' = GapDoPoll (ts f)) \/
+  (f_state f' = Offline /\ f_conn f' = ConnOffline).
+Proof. exact poll_gap_state_frame. Qed.
+Print Assumptions C12_gap_state_frame.
+
+(* The post-claim scan ("the whole GAP at once right after claiming"): in ClaimToken::Scan / ScanAwaitResponse every
+   transmission is a GAP request (subject to C12_poll_in_gap); the phase ends only with GAP state Waiting, into
+   PassToken{do_gap: No} - from where only the token follows - or by giving the token up. *)
+Theorem C12_claim_scan_back_to_back : forall (A : Type) (ops : app_ops A) (f : fdl) (now : Z) (pin : phy_in)
+    (apps : list A) (f' : fdl) (o : phy_out) (apps' : list A) (calls : list call),
+  poll ops f now pin apps = Ok (f', o, apps', calls) ->
+  (f_state f = ClaimToken StepScan \/ exists a0, f_state f = ClaimToken (StepScanAwaitResponse a0)) ->
+  calls = [] /\
+  ((tx o = None /\
+    (f_state f' = f_state f \/ f_state f' = ClaimToken StepScan \/ f_state f' = ActiveIdle None None 0 \/
+     (f_state f' = PassToken false AttFirst /\ exists n, f_gap f' = GapWaiting n))) \/
+   (exists a, (tx o <> None /\ (f_state f' = AwaitStatusResponse a \/ f_state f' = ClaimToken (StepScanAwaitResponse a))) /\
+              tx o = Some (encode (TData (status_request_header a (ts f)) [])))).
+Proof. exact claim_scan_step. Qed.
+Print Assumptions C12_claim_scan_back_to_back.
+
+(* C12_sweep_bound.  visit_gaps f m = the GAP states after each of the next m GAP steps (one per token visit, by
+   C12_visit_performs_gap_step / C12_gap_state_frame / C12_one_per_visit) while NS and the parameters stay as they
+   are.  For all 0 <= TS, NS < HSA <= 126, all gap_wait_rotations 0..254 and ANY current GAP state (cursor anywhere
+   below HSA, any wait count): every address a of the GAP is polled within |GAP| + gap_wait_rotations + 2 visits,
+   and none of the steps panics.  gap_size is |GAP| (C12_gap_size_counts).  Ranking function: visits_until. *)
+Theorem C12_sweep_bound : forall (f : fdl) (a : Z),
+  (0 <= ts f < p_hsa (f_p f) /\ 0 <= r_ns (f_ring f) < p_hsa (f_p f) /\ p_hsa (f_p f) <= 126 /\
+   0 <= p_gap_wait (f_p f) <= 254) ->
+  (match f_gap f with GapDoPoll c => 0 <= c < p_hsa (f_p f) | GapWaiting rc => 0 <= rc end) ->
+  in_gap (ts f) (r_ns (f_ring f)) a -> 0 <= a < p_hsa (f_p f) ->
+  exists (m : nat) (l : list gap_state), (1 <= m)%nat /\
+    Z.of_nat m <= gap_size (ts f) (r_ns (f_ring f)) (p_hsa (f_p f)) + p_gap_wait (f_p f) + 2 /\
+    visit_gaps f m = Ok (l ++ [GapDoPoll a]).
+Proof. exact sweep_bound. Qed.
+Print Assumptions C12_sweep_bound.
+
+(* gap_size TS NS HSA is the number of GAP addresses: they are exactly the addresses at the (cyclic) offsets
+   1 .. gap_size from TS, and every such offset is taken by exactly one address below HSA. *)
+Theorem C12_gap_size_counts : forall t n H : Z, 0 <= t < H -> 0 <= n < H ->
+  (forall x, 0 <= x < H -> (in_gap t n x <-> 1 <= off t H x <= gap_size t n H)) /\
+  (forall k, 1 <= k <= gap_size t n H -> exists x, 0 <= x < H /\ off t H x = k /\ in_gap t n x) /\
+  (forall x y, 0 <= x < H -> 0 <= y < H -> off t H x = off t H y -> x = y).
+Proof. exact gap_size_counts. Qed.
+Print Assumptions C12_gap_size_counts.
+
+Example C12_gap_size_corners :
+  gap_size 7 15 16 = 7 /\ gap_size 7 6 16 = 14 /\ gap_size 7 7 16 = 15 /\ gap_size 15 3 16 = 3 /\
+  gap_size 0 15 16 = 14 /\ gap_size 0 1 16 = 0 /\ gap_size 125 0 126 = 0.
+Proof. repeat split; reflexivity. Qed.
+
+(* C12_found_becomes_successor.  A poll in AwaitStatusResponse a0 / ClaimToken::ScanAwaitResponse a0 that gets as far
+   as its state function (online, PHY idle, last own transmission over) and finds, first in the receive buffer, a
+   response telegram a0 -> TS with status Ok and station state "master ready to enter" or "master in ring" (what the
+   code accepts): set_next_station(a0) is applied to the ring view, nothing is transmitted in this poll, the telegram
+   is consumed, and the station goes on to pass the token (or continues the scan). *)
+Theorem C12_found_becomes_successor : forall (A : Type) (ops : app_ops A) (f : fdl) (now : Z) (pin : phy_in)
+    (apps : list A) (f' : fdl) (o : phy_out) (apps' : list A) (calls : list call) (a0 : Z) (t : telegram) (n : nat),
+  poll ops f now pin apps = Ok (f', o, apps', calls) ->
+  (f_state f = AwaitStatusResponse a0 \/ f_state f = ClaimToken (StepScanAwaitResponse a0)) ->
+  f_conn f = ConnOnline -> tx_busy pin = false -> (forall l, f_lba f = Some l -> l < now) ->
+  decode (rx pin) = Ok (Accept t n) ->
+  (exists h pdu st, t = TData h pdu /\ h_fc h = FcResponse st StOk /\
+     (st = RsMasterWithoutToken \/ st = RsMasterInRing) /\ h_sa h = a0 /\ h_da h = ts f) ->
+  a0 <> ts f /\ set_next_station (f_ring f) a0 = Ok (f_ring f') /\ tx o = None /\ rx_left o = skipn n (rx pin) /\
+  f_gap f' = f_gap f /\ calls = [] /\ f_p f' = f_p f /\
+  (f_state f = AwaitStatusResponse a0 -> f_state f' = PassToken false AttFirst) /\
+  (f_state f = ClaimToken (StepScanAwaitResponse a0) -> f_state f' = ClaimToken StepScan).
+Proof. exact found_becomes_successor. Qed.
+Print Assumptions C12_found_becomes_successor.
+
+(* What set_next_station(a) does to a well-formed ring view (128 LAS bits, TS inside): NS := a, a is in the LAS,
+   everything strictly between TS and a is out of it, everything else is unchanged ("LAS updated"). *)
+Theorem C12_set_next_station_effect : forall (r : ring) (a : Z) (r' : ring),
+  length (r_las r) = 128%nat -> 0 <= r_ts r < 128 -> a <> r_ts r -> set_next_station r a = Ok r' ->
+  0 <= a < 128 /\ r_ns r' = a /\ r_ts r' = r_ts r /\ r_state r' = r_state r /\ length (r_las r') = 128%nat /\
+  (forall x, LasOracle.activeb (r_las r') x =
+             (x =? r_ts r) || (((x =? a) || LasOracle.activeb (r_las r) x) && negb (in_gapb (r_ts r) a x))).
+Proof. exact set_next_station_effect. Qed.
+Print Assumptions C12_set_next_station_effect.
+
+(* ... and the found station gets the next token: whatever the following poll of the station transmits is the
+   token TS -> a0 (by C12_after_gap_request_only_the_token it transmits nothing else before). *)
+Theorem C12_found_gets_next_token : forall (A : Type) (ops : app_ops A) (f : fdl) (now : Z) (pin : phy_in)
+    (apps : list A) (f' : fdl) (o : phy_out) (apps' : list A) (calls : list call) (a0 : Z) (t : telegram) (n : nat)
+    (now2 : Z) (pin2 : phy_in) (apps2 : list A) (f'' : fdl) (o2 : phy_out) (apps2' : list A) (calls2 : list call)
+    (wire : bytes),
+  poll ops f now pin apps = Ok (f', o, apps', calls) -> f_state f = AwaitStatusResponse a0 ->
+  f_conn f = ConnOnline -> tx_busy pin = false -> (forall l, f_lba f = Some l -> l < now) ->
+  decode (rx pin) = Ok (Accept t n) -> is_master_ready_reply (ts f) a0 t ->
+  length (r_las (f_ring f)) = 128%nat -> r_ts (f_ring f) = ts f -> 0 <= ts f < 128 ->
+  poll ops f' now2 pin2 apps2 = Ok (f'', o2, apps2', calls2) -> tx o2 = Some wire ->
+  r_ns (f_ring f') = a0 /\ wire = encode_token a0 (ts f).
+Proof. exact found_gets_next_token. Qed.
+Print Assumptions C12_found_gets_next_token.
+
+(* Any other reply, a reply from or to another address, garbage, a time-out, or a poll that does not get as far:
+   the ring view - NS in particular - is unchanged, except that the time-out in AwaitStatusResponse goes straight on
+   to pass the token, to the unchanged NS, and records that pass in the ring view. *)
+Theorem C12_successor_unchanged_otherwise : forall (A : Type) (ops : app_ops A) (f : fdl) (now : Z) (pin : phy_in)
+    (apps : list A) (f' : fdl) (o : phy_out) (apps' : list A) (calls : list call) (a0 : Z),
+  poll ops f now pin apps = Ok (f', o, apps', calls) ->
+  (f_state f = AwaitStatusResponse a0 \/ f_state f = ClaimToken (StepScanAwaitResponse a0)) ->
+  ~ (exists t n, decode (rx pin) = Ok (Accept t n) /\ is_master_ready_reply (ts f) a0 t) ->
+  f_ring f' = f_ring f \/
+  (f_state f = AwaitStatusResponse a0 /\ tx o = Some (encode_token (r_ns (f_ring f)) (ts f)) /\
+   witness (f_ring f) (ts f) (r_ns (f_ring f)) = Ok (f_ring f')).
+Proof. exact successor_unchanged_otherwise. Qed.
+Print Assumptions C12_successor_unchanged_otherwise.
+
+(* C12_status_reply_truth (1): a listening or idle station transmits nothing but the claim token after its silence
+   time-out and the status reply to the requester it has recorded (marker = ListenToken/ActiveIdle.status_request),
+   with source TS, status Ok and the state given by reply_sent: in ListenToken "ready" (MasterWithoutToken) iff the
+   LAS is valid and the requester is PS, else "not ready", entering the ring (ActiveIdle) iff the LAS is valid; in
+   ActiveIdle "in ring".  Together with C12_poll_transmissions: no status reply is ever sent from any other state. *)
+Theorem C12_status_reply_truth : forall (A : Type) (ops : app_ops A) (f : fdl) (now : Z) (pin : phy_in) (apps : list A)
+    (f' : fdl) (o : phy_out) (apps' : list A) (calls : list call) (wire : bytes),
+  poll ops f now pin apps = Ok (f', o, apps', calls) ->
+  kind_of (f_state f) = KListenToken \/ kind_of (f_state f) = KActiveIdle -> tx o = Some wire ->
+  calls = [] /\
+  ((wire = encode_token (ts f) (ts f) /\ f_state f' = ClaimToken StepSecondToken) \/
+   (exists src st, marker (f_state f) = Some src /\
+      wire = encode (TData (status_response_header src (ts f) st status_reply_status) []) /\
+      ((exists cc, f_state f = ListenToken (Some src) cc /\
+          st = (if ready_for_ring (f_ring f) && (src =? r_ps (f_ring f)) then listen_reply_ready else listen_reply_not_ready) /\
+          f_state f' = (if ready_for_ring (f_ring f) then ActiveIdle None None 0 else ListenToken None cc)) \/
+       (exists nps cc, f_state f = ActiveIdle (Some src) nps cc /\ st = active_idle_reply /\
+          f_state f' = ActiveIdle None nps cc)))).
+Proof. exact listen_idle_transmissions. Qed.
+Print Assumptions C12_status_reply_truth.
+
+(* (2) the reported state, in the words of the property: "in ring" exactly in the ring state ActiveIdle, "ready" iff
+   listening with a valid LAS (two identical rotations seen, C02) and the requester is the predecessor, "not ready"
+   otherwise while listening; never "slave". *)
+Theorem C12_reply_state_truth : forall (f f' : fdl) (src : Z) (st : resp_state), reply_sent f f' src st ->
+  (st = RsMasterInRing <-> exists nps cc, f_state f = ActiveIdle (Some src) nps cc) /\
+  (st = RsMasterWithoutToken <->
+     (exists cc, f_state f = ListenToken (Some src) cc) /\ ready_for_ring (f_ring f) = true /\ src = r_ps (f_ring f)) /\
+  (st = RsMasterNotReady <->
+     (exists cc, f_state f = ListenToken (Some src) cc) /\ ~ (ready_for_ring (f_ring f) = true /\ src = r_ps (f_ring f))) /\
+  st <> RsSlave.
+Proof. exact reply_state_truth. Qed.
+Print Assumptions C12_reply_state_truth.
+
+(* (3) a requester gets recorded only by an FDL status request addressed to TS that is the LAST telegram of the
+   receive buffer of that poll (everything before it is consumed first; requests to other addresses and requests
+   followed by further traffic never lead to a reply); the buffer is then empty and last_bus_activity = the time of
+   that poll - the instant the synchronisation pause before the reply is measured from. *)
+Theorem C12_status_request_must_be_last : forall (A : Type) (ops : app_ops A) (f : fdl) (now : Z) (pin : phy_in)
+    (apps : list A) (f' : fdl) (o : phy_out) (apps' : list A) (calls : list call) (src : Z),
+  poll ops f now pin apps = Ok (f', o, apps', calls) -> marker (f_state f') = Some src ->
+  marker (f_state f) = Some src \/
+  ((exists pre suf t, rx pin = pre ++ suf /\ decode suf = Ok (Accept t (length suf)) /\
+      exists h pdu, t = TData h pdu /\ is_fdl_status_request h = true /\ h_da h = ts f /\ h_sa h = src) /\
+   rx_left o = [] /\ f_pending f' = 0%nat /\ f_lba f' = Some now).
+Proof. exact poll_marks_last_request. Qed.
+Print Assumptions C12_status_request_must_be_last.
+
+(* C12_status_reply_in_slot.  The station has a recorded requester and last_bus_activity = l (the time of the poll
+   that received the request, by (3)); it is online and is polled at the times waits ++ [tk], at most P apart, with
+   an idle PHY and nothing further in the receive buffer; tk is the first of these later than l + 33 bit.  Then all
+   earlier polls do nothing at all, the poll at tk transmits the reply, tk <= l + 33 bit + P, and if the request
+   ended at t_end, at most one poll period before l: tk <= t_end + 2P + 33 bit and the first byte of the reply
+   (11 bit, rounded up to whole microseconds, plus 1 us for the rounding of the requester's own time stamp) is
+   complete before t_end + Tslot - for every parameter set the builder accepts and every poll period P <= Tslot/4.
+   The requester tests its slot timer only after looking for new bytes, so its own poll period does not enter. *)
+Theorem C12_status_reply_in_slot : forall (A : Type) (ops : app_ops A) (f : fdl) (src l P : Z) (waits : list Z) (tk : Z)
+    (apps : list A),
+  builder_valid (f_p f) -> f_conn f = ConnOnline ->
+  ((exists cc, f_state f = ListenToken (Some src) cc) \/ (exists nps cc, f_state f = ActiveIdle (Some src) nps cc)) ->
+  f_lba f = Some l -> 0 <= l < 4611686018427387904 -> 0 <= tk < 4611686018427387904 ->
+  0 <= P -> 4 * P <= slot_time (f_p f) ->
+  spaced l P (waits ++ [tk]) ->
+  Forall (fun t => t <= l + p_bits_to_time (f_p f) sync_pause_bits) waits ->
+  l + p_bits_to_time (f_p f) sync_pause_bits < tk ->
+  (forall t, In t waits -> poll ops f t (mkPhyIn false []) apps = Ok (f, mkPhyOut None [], apps, [])) /\
+  (exists f' st, poll ops f tk (mkPhyIn false []) apps =
+                   Ok (f', mkPhyOut (Some (encode (TData (status_response_header src (ts f) st status_reply_status) []))) [], apps, []) /\
+                 reply_sent f f' src st) /\
+  tk <= l + p_bits_to_time (f_p f) sync_pause_bits + P /\
+  (forall t_end, t_end <= l <= t_end + P ->
+     tk <= t_end + 2 * P + p_bits_to_time (f_p f) sync_pause_bits /\
+     tk + bits_to_time_up (p_baud (f_p f)) bits_per_byte + 1 <= t_end + slot_time (f_p f)).
+Proof. exact status_reply_in_slot. Qed.
+Print Assumptions C12_status_reply_in_slot.
+
+(* the inequality behind it, for every baud rate and every builder-valid slot time (regenerated min_slot_bits table;
+   bits_to_time rounds down to whole microseconds, bits_to_time_up rounds up): 2P + 33 bit + 11 bit + 1 us <= Tslot
+   whenever P <= Tslot / 4.  No baud rate fails; the tightest case is 12 Mbit/s. *)
+Theorem C12_slot_time_covers_reply : forall (p : params) (P : Z),
+  builder_valid p -> 0 <= P -> 4 * P <= slot_time p ->
+  2 * P + p_bits_to_time p sync_pause_bits + bits_to_time_up (p_baud p) bits_per_byte + 1 <= slot_time p.
+Proof. exact slot_time_covers_reply. Qed.
+Print Assumptions C12_slot_time_covers_reply.
+
+Example C12_slot_numbers_12M :
+  bits_to_time B12000000 1000 = 83 /\ bits_to_time B12000000 33 = 2 /\ bits_to_time_up B12000000 11 = 1 /\
+  bits_to_time B9600 100 = 10416 /\ bits_to_time B9600 33 = 3437 /\ bits_to_time_up B9600 11 = 1146.
+Proof. repeat split; reflexivity. Qed.
+
+(* The requester's side of "within the slot time": a station waiting for the status reply does not time out in a poll
+   that finds new bytes in its receive buffer (however late that poll is: new bytes restart the timer before it is
+   tested), nor in any poll up to Tslot after its last_bus_activity (the predicted end of its request); it keeps
+   waiting, transmits nothing, consumes nothing.  With C12_status_reply_in_slot: the first byte of the reply is in the
+   requester's buffer before its slot timer can fire, whatever the requester's own poll period. *)
+Theorem C12_requester_keeps_waiting : forall (A : Type) (ops : app_ops A) (f : fdl) (now : Z) (pin : phy_in)
+    (apps : list A) (a0 l : Z),
+  f_conn f = ConnOnline -> f_state f = AwaitStatusResponse a0 -> f_gap f = GapDoPoll a0 -> a0 <> ts f ->
+  tx_busy pin = false -> f_lba f = Some l -> 0 <= l < 4611686018427387904 -> 0 <= now < 4611686018427387904 -> l < now ->
+  0 <= slot_time (f_p f) <= 100000 * 1000000 ->
+  decode (rx pin) = Ok NeedMore ->
+  ((f_pending f < length (rx pin))%nat \/ now <= l + slot_time (f_p f)) ->
+  exists f', poll ops f now pin apps = Ok (f', mkPhyOut None (rx pin), apps, []) /\ f_state f' = f_state f.
+Proof. exact requester_keeps_waiting. Qed.
+Print Assumptions C12_requester_keeps_waiting.
+
+(* Non-vacuity: concrete polls of station 7 (HSA 16, 19200 baud, alone in its ring, so the GAP is everything but 7)
+   that satisfy the hypotheses of the theorems above - a GAP request to 8, the wrap HSA-1 -> 0, the end of the sweep
+   at TS-1 (token instead of a request), the two status replies of a listening station, a found successor; and a
+   builder-valid parameter set. *)
+Example C12_instance_gap_request :
+  exists f' o, poll unit_app_ops (ex_station (PassToken true AttFirst) (GapDoPoll 7) 7) 10000 (mkPhyIn false []) [tt]
+               = Ok (f', o, [tt], []) /\
+    tx o = Some (encode (TData (status_request_header 8 7) [])) /\ f_state f' = AwaitStatusResponse 8 /\ f_gap f' = GapDoPoll 8.
+Proof. exact example_gap_request. Qed.
+Example C12_instance_gap_request_wrap :
+  exists f' o, poll unit_app_ops (ex_station (PassToken true AttFirst) (GapDoPoll 15) 7) 10000 (mkPhyIn false []) [tt]
+               = Ok (f', o, [tt], []) /\
+    tx o = Some (encode (TData (status_request_header 0 7) [])) /\ f_state f' = AwaitStatusResponse 0.
+Proof. exact example_gap_request_wrap. Qed.
+Example C12_instance_sweep_end :
+  exists f' o, poll unit_app_ops (ex_station (PassToken true AttFirst) (GapDoPoll 6) 7) 10000 (mkPhyIn false []) [tt]
+               = Ok (f', o, [tt], []) /\
+    tx o = Some (encode_token 7 7) /\ f_gap f' = GapWaiting 0.
+Proof. exact example_sweep_end. Qed.
+Example C12_instance_status_reply_ready :
+  exists f' o, poll unit_app_ops (ex_station (ListenToken (Some 3) 0) (GapDoPoll 7) 3) 10000 (mkPhyIn false []) [tt]
+               = Ok (f', o, [tt], []) /\
+    tx o = Some (encode (TData (status_response_header 3 7 RsMasterWithoutToken StOk) [])) /\ f_state f' = ActiveIdle None None 0.
+Proof. exact example_status_reply. Qed.
+Example C12_instance_status_reply_not_ready :
+  exists f' o, poll unit_app_ops (ex_station (ListenToken (Some 4) 0) (GapDoPoll 7) 3) 10000 (mkPhyIn false []) [tt]
+               = Ok (f', o, [tt], []) /\
+    tx o = Some (encode (TData (status_response_header 4 7 RsMasterNotReady StOk) [])).
+Proof. exact example_status_reply_not_ready. Qed.
+Example C12_instance_found :
+  exists f' o, poll unit_app_ops (ex_station (AwaitStatusResponse 9) (GapDoPoll 9) 7) 10000
+                 (mkPhyIn false (encode (TData (status_response_header 7 9 RsMasterWithoutToken StOk) []))) [tt]
+               = Ok (f', o, [tt], []) /\
+    tx o = None /\ r_ns (f_ring f') = 9 /\ f_state f' = PassToken false AttFirst.
+Proof. exact example_found. Qed.
+Example C12_instance_builder_valid : builder_valid ex_params.
+Proof. exact example_params_builder_valid. Qed.
